@@ -170,6 +170,10 @@ void h_u_memchr(void) { unsigned char *p; unsigned char ch; unsigned long n; vf_
 /*@GROUP name=u_strlen props=C18,C02 kind=U mode=contract enforce=d_strlen loops=1 standin=strlen_cmp_ascii@*/
 void h_u_strlen(void) { char *s; vf_n = nondet_ulong(); vf_k = nondet_ulong(); d_strlen(s); VF_REACH(); }
 
+/*@GROUP name=u_memmove props=C18,C02 kind=U mode=contract enforce=d_memmove loops=1 standin=memmove@*/
+void h_u_memmove(void) { void *d; void *s; unsigned long n; vf_k = nondet_ulong(); vf_m = nondet_ulong(); vf_p = nondet_ulong(); vf_q = nondet_ulong(); vf_t = nondet_ulong();
+  d_memmove(d, s, n); VF_REACH(); }
+
 /* ---- character classification: ISO C 7.4.1 "C" locale class definitions as explicit range predicates ---- */
 /*@COMMON@*/
 #define R_UPPER(c) ((c) >= 'A' && (c) <= 'Z')
